@@ -130,3 +130,124 @@ Proof. exact flush_nothing_pending. Qed.
 Theorem c19_flush_something_pending : forall s n x s',
   step s n Flush = (x, s') -> bbuf s <> [] -> length (lg s) < length (lg s').
 Proof. exact flush_something_pending. Qed.
+
+(* ==== added after the audit of 2026-10-02 (selftest/audit/REPORT-2026-10-02.md) ==== *)
+(* ==== added after the audit of 2026-10-02, item A.12 first part ==== *)
+Require Import Cadence.Proofs.AuditW2.
+
+(* [A.12, first part (1)+(2)] The global count for ANY fault-free history (every history has the
+   form below: c19_every_history_is_segments): metrics of any size - fitting, oversized,
+   zero-length - and explicit flushes anywhere.  The number of whole-line datagrams that carry
+   bytes is the sum, over the segments closed by the explicit flushes and the final drop, of
+   the next-fit count of those lines of the segment that fit the buffer and are not
+   zero-length.  No hypothesis on the metrics.  Oversized metrics do NOT cut a segment: in the
+   model the oversized metric bypasses the buffer (get_mut), nothing buffered is flushed.
+   Zero-length lines (empty metric, empty terminator) carry no byte and are invisible. *)
+Theorem c19_count_general : forall c e (segs : list (list str)) (last : list str) rs s,
+  run c e [] (concat (map (fun seg => map Emit seg ++ [Flush]) segs) ++ map Emit last) = (rs, s) ->
+  length (filter (fun a => match a_lab a with Lines _ => true | Alone _ => false end &&
+                           match a_bytes a with [] => false | _ => true end) (lg s)) =
+    fold_right (fun seg a =>
+       greedy_count c (map (fun m => length m + length e)
+          (filter (fun m => negb (c <? length m + length e) && (0 <? length m + length e)) seg)) + a) 0 segs
+    + greedy_count c (map (fun m => length m + length e)
+          (filter (fun m => negb (c <? length m + length e) && (0 <? length m + length e)) last)) /\
+  Forall (fun x => exists k, x = OOk k) rs.
+Proof. exact count_general. Qed.
+
+(* every history is a list of flushed segments followed by a last, unflushed one *)
+Theorem c19_every_history_is_segments : forall ops : list op,
+  exists segs last, ops = concat (map (fun seg => map Emit seg ++ [Flush]) segs) ++ map Emit last.
+Proof. exact ops_as_segments. Qed.
+
+(* fault-free: the writes of a metric alone are, in log order, exactly the oversized metrics of
+   the history (identities are operation numbers, so each exactly once); each is made during its
+   own emit, carries the metric without terminator and is answered Ok *)
+Theorem c19_alone : forall c e ops rs s,
+  run c e [] ops = (rs, s) ->
+  flat_map (fun a => match a_lab a with Alone g => [g] | Lines _ => [] end) (lg s) =
+    filter (fun g => c <? length (snd g) + length e) (emitted 0 ops) /\
+  Forall (fun a => forall g, a_lab a = Alone g ->
+            a_op a = fst g /\ a_bytes a = snd g /\ a_out a = WOk /\ c < length (snd g) + length e) (lg s).
+Proof. exact alone_general_spelled. Qed.
+
+(* optimality: no in-order packing of the fitting lines (zero-length ones may be put anywhere)
+   that closes a block at every explicit flush and at the drop - the only forced cut points -
+   has fewer blocks than the writer sent whole-line datagrams with bytes *)
+Theorem c19_optimal_general : forall c e (segs : list (list str)) (last : list str) rs s ps p,
+  run c e [] (concat (map (fun seg => map Emit seg ++ [Flush]) segs) ++ map Emit last) = (rs, s) ->
+  Forall2 (fun seg q => valid_partition c (map (fun m => length m + length e)
+                           (filter (fun m => negb (c <? length m + length e)) seg)) q) segs ps ->
+  valid_partition c (map (fun m => length m + length e)
+                           (filter (fun m => negb (c <? length m + length e)) last)) p ->
+  length (filter (fun a => match a_lab a with Lines _ => true | Alone _ => false end &&
+                           match a_bytes a with [] => false | _ => true end) (lg s))
+    <= fold_right (fun q a => length q + a) 0 ps + length p.
+Proof. exact optimal_general. Qed.
+
+(* [A.12, first part (3)] ANY fault script: the number of SUCCESSFUL whole-line datagrams with
+   bytes is at most: the sum, over the segments delimited by the explicit flushes that answered
+   Ok (and the drop), of the next-fit count of the fitting non-zero-length lines ACKNOWLEDGED in
+   the segment [cur_sizes / later, AuditW2.v], plus ONE for every REFUSED emit of a line exactly
+   as large as the buffer [pen].  Failed or interrupted flushes, refused emits of any other
+   line, and oversized metrics cost nothing.  The "+1" is attained (c19_fault_bound_witness). *)
+Theorem c19_fault_bound : forall c e script ops rs s,
+  run c e script ops = (rs, s) ->
+  length (filter (fun a => match a_lab a with Lines _ => true | Alone _ => false end &&
+                           match a_bytes a with [] => false | _ => true end &&
+                           match a_out a with WOk => true | _ => false end) (lg s))
+    <= greedy_count c (cur_sizes c e ops rs) + later c e ops rs.
+Proof. exact fault_bound. Qed.
+
+(* one emit of a fitting non-empty line from any state satisfying the invariant, any script:
+   acknowledged - the potential [Phi] (successful whole-line datagrams so far + open block +
+   blocks next-fit still opens for the lines to come) moves exactly as next-fit does; refused -
+   it does not grow, except by one when the line is exactly as large as the buffer *)
+Theorem c19_fault_emit : forall s m n r s' rest,
+  Inv s -> length m + length (ending s) <= cap s -> 0 < length m + length (ending s) ->
+  mlw_write s m n = (r, s') ->
+  Inv s' /\ cap s' = cap s /\ ending s' = ending s /\
+  (((exists k, r = ROk k) /\ Phi s' rest = Phi s ((length m + length (ending s)) :: rest)) \/
+   ((forall k, r <> ROk k) /\
+    Phi s' rest <= Phi s rest + (if length m + length (ending s) =? cap s then 1 else 0))).
+Proof. exact emit_phi. Qed.
+
+Example c19_count_general_witness :
+  let nine := [9;9;9;9;9;9;9;9;9]%N in
+  let segs := [[[1;2]; nine; [3;4]]]%N in let last := [[5%N]] in
+  let s := snd (run 8 [10%N] [] (seg_ops segs last)) in
+  (map (fun a => (a_op a, is_lines a, length (a_bytes a))) (lg s),
+   lcount (lg s), sum_packed 8 [10%N] segs + greedy_count 8 (seg_sizes 8 [10%N] last),
+   map fst (alones (lg s))) =
+  ([(1, false, 9); (3, true, 6); (5, true, 2)], 2, 2, [1]).
+Proof. exact count_general_witness. Qed.
+
+Example c19_zero_line_breaks_count :
+  let s := snd (run 4 [] [] (map Emit [[]])) in
+  (dcount (lg s), greedy_count 4 (line_sizes [] [[]])) = (0, 1).
+Proof. exact zero_line_breaks_c19_count. Qed.
+
+Example c19_zero_line_count_witness :
+  let segs := [[[]; [1;2]; []; [3;4]; []; [5]]; [[]]]%N in let last := [[]] : list str in
+  let s := snd (run 4 [] [] (seg_ops segs last)) in
+  (map (fun a => a_bytes a) (lg s), lcount (lg s),
+   sum_packed 4 [] segs + greedy_count 4 (seg_sizes 4 [] last)) =
+  ([[1;2;3;4]; [5]]%N, 2, 2).
+Proof. exact zero_line_count_witness. Qed.
+
+Example c19_fault_bound_witness :
+  let ops := [Emit [1;2;3]; Emit [4;4;4;4;4;4;4;4]; Emit [5;6;7]]%N in
+  let '(rs, s) := run 8 [] [WOk; WErr 5%N; WOk] ops in
+  (rs, map (fun a => (a_op a, a_out a, length (a_bytes a))) (lg s), oklcount (lg s),
+   cur_sizes 8 [] ops rs, later 8 [] ops rs, fault_bound_of 8 [] ops rs) =
+  ([OOk 3; OErr 5%N; OOk 3], [(1, WOk, 3); (1, WErr 5%N, 8); (3, WOk, 3)], 2, [3; 3], 1, 2).
+Proof. exact fault_bound_witness. Qed.
+
+Example c19_fault_bound_witness2 :
+  let ops := [Emit [1;2]; Emit [4;4;4;4;4]; Emit [5;6]; Flush; Emit [7]]%N in
+  let '(rs, s) := run 8 [10%N] [WErr 5%N; WIntr; WOk; WErr 6%N] ops in
+  (rs, map (fun a => (a_op a, a_out a, length (a_bytes a))) (lg s), oklcount (lg s),
+   fault_bound_of 8 [10%N] ops rs) =
+  ([OOk 2; OErr 5%N; OOk 2; OOk 0; OOk 1],
+   [(1, WErr 5%N, 3); (3, WIntr, 6); (3, WOk, 6); (5, WErr 6%N, 2)], 1, 2).
+Proof. exact fault_bound_witness2. Qed.
